@@ -57,10 +57,11 @@ def fuse_sections(code: list[L.LNode], name: str) -> list[L.LNode]:
                 output.extend(section.output)
                 annotations = section.annotations
 
-    # Remove duplicated inputs
-    input = list(set(input))
+    # Remove duplicated inputs (keeping the order of first appearance, so
+    # that the generated code does not depend on the hash seed)
+    input = list(dict.fromkeys(input))
     # Remove duplicated outputs
-    output = list(set(output))
+    output = list(dict.fromkeys(output))
 
     section = L.Section(name, statements, declarations, input, output, annotations)
 
